@@ -12,6 +12,7 @@ import (
 	"net/http/httptest"
 	"strings"
 	"testing"
+	"time"
 
 	"pgregory.net/rapid"
 
@@ -20,7 +21,7 @@ import (
 	"github.com/flamego/flamego/verifharness/internal/rt"
 )
 
-const rule = "case = a handler stack: 0..3 application middleware, 0..2 nested groups with 0..2 handlers each, 1..3 route handlers and an optional final action; each handler is a straight-line program of 0..4 operations over {write a status, write body bytes (Write or io.Copy; the underlying writer with or without io.ReaderFrom), Next(), Next() under a recover, cancel the request context, panic} plus an optional return value (non-empty string, empty string, nil error, non-nil error). " +
+const rule = "case = a handler stack: 0..3 application middleware, 0..2 nested groups (some declared with the empty path) with 0..2 handlers each, 1..3 route handlers and an optional final action; each handler is a straight-line program of 0..4 operations over {write a status, write body bytes (Write or io.Copy; the underlying writer with or without io.ReaderFrom), Next(), Next() under a recover, cancel the request context (directly, through a derived context installed on the request, or by a deadline that has passed), panic} plus an optional return value (non-empty string, empty string, nil error, non-nil error). " +
 	"Oracle: the trace of enter/next/back/exit events, final status and body must equal those of a cursor interpreter written from the statement (cursor = next handler not yet started); plus model-free invariants on the real trace: handlers are entered as 0,1,2,... without gap or repetition, and enter/exit events nest like calls. " +
 	"non-trivial = a program with a Next() issued after a write or cancel, or >=2 Next() in one handler, or a write inside a handler reached through Next(), or a chain that reaches a nil action, or a panic crossing a recovering Next(); distinct by case text"
 
@@ -33,7 +34,8 @@ func TestMain(m *testing.M) { evid.Main(m, "C03", rule, assumptions) }
 
 // H is one handler program. Ops: "s<code>" write status, "b" write body, "bc" the same through io.Copy,
 // "n" Next, "r" Next under recover, "c" cancel, "d" install a derived request
-// context and cancel that, "p" panic.
+// context and cancel that, "t" install a request context whose deadline has
+// passed, "p" panic.
 // Ret: "" none, "str", "empty", "nilerr", "err".
 type H struct {
 	Ops []string `json:"ops"`
@@ -55,6 +57,16 @@ type Case struct {
 	// ReaderFrom: the writer handed to ServeHTTP also implements io.ReaderFrom,
 	// as the one of net/http does.
 	ReaderFrom bool `json:"reader_from,omitempty"`
+	// EmptyGroupPath: bit d set = the group at depth d is declared with the
+	// empty path (it only contributes its handlers).
+	EmptyGroupPath int `json:"empty_group_path,omitempty"`
+}
+
+func (c Case) groupPath(d int) string {
+	if c.EmptyGroupPath&(1<<d) != 0 {
+		return ""
+	}
+	return fmt.Sprintf("/g%d", d)
 }
 
 // onlyReader hides WriterTo so that io.Copy goes for the writer's ReadFrom.
@@ -164,7 +176,7 @@ func (m *interp) exec(i int, h *H) {
 				m.run()
 			}()
 			m.ev("back %d", i)
-		case op == "c", op == "d":
+		case op == "c", op == "d", op == "t":
 			m.cancelled = true
 		case op == "p":
 			m.ev("panic %d", i)
@@ -251,6 +263,12 @@ func real(c Case) (res result) {
 					derived, cancelDerived := gocontext.WithCancel(ctx.Request().Context())
 					ctx.Request().Request = ctx.Request().WithContext(derived)
 					cancelDerived()
+				case op == "t":
+					// the request context the handler installs has a deadline that
+					// has passed: it is done, just as a cancelled one
+					derived, cancelDerived := gocontext.WithDeadline(ctx.Request().Context(), time.Now().Add(-time.Hour))
+					defer cancelDerived()
+					ctx.Request().Request = ctx.Request().WithContext(derived)
 				case op == "p":
 					ev("panic %d", i)
 					panic(harnessPanic{i})
@@ -300,7 +318,7 @@ func real(c Case) (res result) {
 			}
 			return
 		}
-		f.Group(fmt.Sprintf("/g%d", depth), func() { register(depth + 1) }, ghs[depth]...)
+		f.Group(c.groupPath(depth), func() { register(depth + 1) }, ghs[depth]...)
 	}
 	register(0)
 	if c.Action != nil {
@@ -308,7 +326,7 @@ func real(c Case) (res result) {
 	}
 	path := ""
 	for d := range ghs {
-		path += fmt.Sprintf("/g%d", d)
+		path += c.groupPath(d)
 	}
 	path += "/r"
 	method := c.Method
@@ -371,7 +389,7 @@ func checkCase(c Case) (out evid.Outcome) {
 					out.NonTrivial = true
 					out.Classes = append(out.Classes, "next-after-write-or-cancel")
 				}
-			case op == "b" || op == "bc" || op[0] == 's' || op == "c" || op == "d":
+			case op == "b" || op == "bc" || op[0] == 's' || op == "c" || op == "d" || op == "t":
 				seenWriteOrCancel = true
 				if op == "bc" {
 					out.Classes = append(out.Classes, "body-streamed-with-io.Copy")
@@ -516,7 +534,7 @@ func genH(t *rapid.T) H {
 		case k < 17:
 			h.Ops = append(h.Ops, "c")
 		case k < 18:
-			h.Ops = append(h.Ops, "d")
+			h.Ops = append(h.Ops, []string{"d", "d", "t"}[rapid.IntRange(0, 2).Draw(t, "dk")])
 		default:
 			h.Ops = append(h.Ops, "p")
 		}
@@ -548,6 +566,9 @@ func genCase(t *rapid.T) Case {
 	c.SiblingsBefore = rapid.IntRange(0, 2).Draw(t, "sibbefore")
 	c.SiblingsAfter = rapid.IntRange(0, 2).Draw(t, "sibafter")
 	c.ReaderFrom = rapid.Bool().Draw(t, "readerfrom")
+	if len(c.Groups) > 0 && rapid.IntRange(0, 3).Draw(t, "emptygroup") == 0 {
+		c.EmptyGroupPath = rapid.IntRange(1, 1<<len(c.Groups)-1).Draw(t, "emptymask")
+	}
 	return c
 }
 
